@@ -484,6 +484,9 @@ func (m *Machine) Draw(t *rapid.T, g *GenOpts) Action {
 	case "regToken":
 		a.Lz = []uint64{101, 102}[uniform(t, 2, "lz")]
 		a.N = uniform(t, 1000, "tok")
+		if hostile || pct(t, 35, "interval?") {
+			a.Ident = 1 + uniform(t, 4, "interval") // explicit feeder interval in the oracle info, incl. "0"
+		}
 	case "updToken":
 		lst := m.lstAssets()
 		a.Asset = lst[uniform(t, len(lst), "lst")]
